@@ -11,6 +11,7 @@
 package c07
 
 import (
+	"errors"
 	"fmt"
 	"sort"
 	"strings"
@@ -32,6 +33,7 @@ type orderedStore struct {
 	*testutil.EphemeralWalletStore
 	mu   sync.Mutex
 	rank map[types.SiacoinOutputID]int
+	failNext bool // the next UnspentSiacoinElements fails
 }
 
 func (s *orderedStore) setRank(id types.SiacoinOutputID, r int) {
@@ -47,7 +49,20 @@ func (s *orderedStore) rankOf(id types.SiacoinOutputID) (int, bool) {
 	return r, ok
 }
 
+func (s *orderedStore) failOnce(on bool) {
+	s.mu.Lock()
+	s.failNext = on
+	s.mu.Unlock()
+}
+
 func (s *orderedStore) UnspentSiacoinElements() (types.ChainIndex, []types.SiacoinElement, error) {
+	s.mu.Lock()
+	fail := s.failNext
+	s.failNext = false
+	s.mu.Unlock()
+	if fail {
+		return types.ChainIndex{}, nil, errors.New("injected: the store is not reachable")
+	}
 	tip, utxos, err := s.EphemeralWalletStore.UnspentSiacoinElements()
 	if err != nil {
 		return tip, utxos, err
@@ -168,6 +183,7 @@ func newEnv(seed []byte, cfg config, delay uint64) *env {
 	e.uc = types.StandardUnlockConditions(e.pk.PublicKey())
 	e.addr = e.uc.UnlockHash()
 	e.policy = types.SpendPolicy{Type: types.PolicyTypeUnlockConditions(e.uc)}
+	e.gate = &gate{}
 	e.ws = &orderedStore{EphemeralWalletStore: testutil.NewEphemeralWalletStore(), rank: map[types.SiacoinOutputID]int{}}
 	oseed := append([]byte("other party "), seed...)
 	e.opk = types.NewPrivateKeyFromSeed(oseed[:32])
